@@ -1,0 +1,362 @@
+//go:build verif
+
+package msg
+
+import (
+	"io"
+
+	"github.com/fatedier/frp/verif"
+)
+
+// C17 "Control-protocol codec: lossless, bounded, total, and wire-stable".
+//
+// The codec itself (framing, length check, JSON body) lives in the dependency
+// golib/msg/json; what this repository owns, and what a change to it can break,
+// is: the registry byte <-> message type, the JSON field names and types of the
+// eighteen messages, the registration of every message with the codec, the
+// declared length bound, and what the server and the dispatcher do with a
+// message that does not decode or is not expected. Those are under contract
+// here; the golden tables below are the wire format of the released protocol
+// at the pinned commit (generated once by tools/gen_msg_golden.py).
+
+//verif:table ~/pkg/msg.msgTypeMap
+
+// Package initialisation registers every entry of the table with the codec
+// (loop body check for an arbitrary entry; A-RANGE: a range loop visits every
+// entry) and leaves the codec's length bound at its default of 10240 bytes.
+//
+//verif:contract ~/pkg/msg.init#1
+//verif:props C17
+func verif_init() {
+	verif.ResetEvents()
+	verif.CallTarget()
+	verif.Ensures(msgCtl != nil, "codec_created")
+	verif.Ensures(!verif.Called("SetMaxMsgLength"), "declared_length_bound_kept")
+}
+
+//verif:loopbody ~/pkg/msg.init#1 1 check=verifInitRegisters args=typeByte,msg
+func verifInitRegisters(typeByte byte, m any) bool {
+	return verif.CalledWithInIter("RegisterMsg", 1, typeByte) && verif.CalledWithInIter("RegisterMsg", 2, m)
+}
+
+// ReadMsg / WriteMsg / ReadMsgInto go through the one registered codec and hand
+// back exactly what it returned.
+//
+//verif:contract ~/pkg/msg.ReadMsg
+//verif:props C17
+func verif_ReadMsg(c io.Reader) {
+	verif.ResetEvents()
+	m, err := ReadMsg(c)
+	verif.Ensures(verif.CalledWith("MsgCtl).ReadMsg", 0, msgCtl) && verif.CalledWith("MsgCtl).ReadMsg", 1, c), "read_by_the_registered_codec")
+	verif.Ensures(verif.Same(m, verif.NthRet[Message]("MsgCtl).ReadMsg", 0, 0)) && err == verif.RetErr("MsgCtl).ReadMsg", 1), "codec_result_returned")
+}
+
+//verif:contract ~/pkg/msg.WriteMsg
+//verif:props C17
+func verif_WriteMsg(c io.Writer, m any) {
+	verif.ResetEvents()
+	err := WriteMsg(c, m)
+	verif.Ensures(verif.CalledWith("MsgCtl).WriteMsg", 0, msgCtl) && verif.CalledWith("MsgCtl).WriteMsg", 1, c) && verif.CalledWith("MsgCtl).WriteMsg", 2, m), "written_by_the_registered_codec")
+	verif.Ensures(err == verif.RetErr("MsgCtl).WriteMsg", 0), "codec_result_returned")
+}
+
+// "read loop ends the session on any decode error": the dispatcher's read loop
+// returns only after a failed read, and then it has closed doneCh (which stops
+// the send loop and makes Send report EOF); a message that failed to decode is
+// handed to no handler; every message that did decode is handed to the handler
+// registered for its type, or else to the default handler.
+//
+//verif:contract (*~/pkg/msg.Dispatcher).readLoop
+//verif:props C17 C16
+func verif_readLoop(d *Dispatcher) {
+	verif.Requires(!verif.Closed(d.doneCh), "session_open")
+	verif.ResetEvents()
+	d.readLoop()
+	verif.Ensures(verif.Closed(d.doneCh), "returns_only_with_done_closed")
+	verif.Ensures(verif.CalledInIter("msg.ReadMsg") && verif.RetErr("msg.ReadMsg", 1) != nil, "returns_only_after_a_failed_read")
+}
+
+//verif:loopbody (*~/pkg/msg.Dispatcher).readLoop 1 check=verifReadLoopIter args=d
+func verifReadLoopIter(d *Dispatcher) bool {
+	return verif.CalledInIter("msg.ReadMsg") && verif.IterRet[error]("msg.ReadMsg", 1) == nil
+}
+
+//verif:lemma
+//verif:props C17
+func verif_golden_type_bytes() {
+	verif.Assert(len(msgTypeMap) == 18, "eighteen_registered_messages")
+	{
+		_, ok := msgTypeMap['o'].(Login)
+		verif.Assert(ok && TypeLogin == 'o', "byte_o_is_Login")
+	}
+	{
+		_, ok := msgTypeMap['1'].(LoginResp)
+		verif.Assert(ok && TypeLoginResp == '1', "byte_1_is_LoginResp")
+	}
+	{
+		_, ok := msgTypeMap['p'].(NewProxy)
+		verif.Assert(ok && TypeNewProxy == 'p', "byte_p_is_NewProxy")
+	}
+	{
+		_, ok := msgTypeMap['2'].(NewProxyResp)
+		verif.Assert(ok && TypeNewProxyResp == '2', "byte_2_is_NewProxyResp")
+	}
+	{
+		_, ok := msgTypeMap['c'].(CloseProxy)
+		verif.Assert(ok && TypeCloseProxy == 'c', "byte_c_is_CloseProxy")
+	}
+	{
+		_, ok := msgTypeMap['w'].(NewWorkConn)
+		verif.Assert(ok && TypeNewWorkConn == 'w', "byte_w_is_NewWorkConn")
+	}
+	{
+		_, ok := msgTypeMap['r'].(ReqWorkConn)
+		verif.Assert(ok && TypeReqWorkConn == 'r', "byte_r_is_ReqWorkConn")
+	}
+	{
+		_, ok := msgTypeMap['s'].(StartWorkConn)
+		verif.Assert(ok && TypeStartWorkConn == 's', "byte_s_is_StartWorkConn")
+	}
+	{
+		_, ok := msgTypeMap['v'].(NewVisitorConn)
+		verif.Assert(ok && TypeNewVisitorConn == 'v', "byte_v_is_NewVisitorConn")
+	}
+	{
+		_, ok := msgTypeMap['3'].(NewVisitorConnResp)
+		verif.Assert(ok && TypeNewVisitorConnResp == '3', "byte_3_is_NewVisitorConnResp")
+	}
+	{
+		_, ok := msgTypeMap['h'].(Ping)
+		verif.Assert(ok && TypePing == 'h', "byte_h_is_Ping")
+	}
+	{
+		_, ok := msgTypeMap['4'].(Pong)
+		verif.Assert(ok && TypePong == '4', "byte_4_is_Pong")
+	}
+	{
+		_, ok := msgTypeMap['u'].(UDPPacket)
+		verif.Assert(ok && TypeUDPPacket == 'u', "byte_u_is_UDPPacket")
+	}
+	{
+		_, ok := msgTypeMap['i'].(NatHoleVisitor)
+		verif.Assert(ok && TypeNatHoleVisitor == 'i', "byte_i_is_NatHoleVisitor")
+	}
+	{
+		_, ok := msgTypeMap['n'].(NatHoleClient)
+		verif.Assert(ok && TypeNatHoleClient == 'n', "byte_n_is_NatHoleClient")
+	}
+	{
+		_, ok := msgTypeMap['m'].(NatHoleResp)
+		verif.Assert(ok && TypeNatHoleResp == 'm', "byte_m_is_NatHoleResp")
+	}
+	{
+		_, ok := msgTypeMap['5'].(NatHoleSid)
+		verif.Assert(ok && TypeNatHoleSid == '5', "byte_5_is_NatHoleSid")
+	}
+	{
+		_, ok := msgTypeMap['6'].(NatHoleReport)
+		verif.Assert(ok && TypeNatHoleReport == '6', "byte_6_is_NatHoleReport")
+	}
+}
+
+//verif:lemma
+//verif:props C17
+func verif_golden_fields_Login() {
+	verif.Assert(verif.FieldTag[Login]("Version") == `json:"version,omitempty"` && verif.FieldType[Login]("Version") == "string", "Version")
+	verif.Assert(verif.FieldTag[Login]("Hostname") == `json:"hostname,omitempty"` && verif.FieldType[Login]("Hostname") == "string", "Hostname")
+	verif.Assert(verif.FieldTag[Login]("Os") == `json:"os,omitempty"` && verif.FieldType[Login]("Os") == "string", "Os")
+	verif.Assert(verif.FieldTag[Login]("Arch") == `json:"arch,omitempty"` && verif.FieldType[Login]("Arch") == "string", "Arch")
+	verif.Assert(verif.FieldTag[Login]("User") == `json:"user,omitempty"` && verif.FieldType[Login]("User") == "string", "User")
+	verif.Assert(verif.FieldTag[Login]("PrivilegeKey") == `json:"privilege_key,omitempty"` && verif.FieldType[Login]("PrivilegeKey") == "string", "PrivilegeKey")
+	verif.Assert(verif.FieldTag[Login]("Timestamp") == `json:"timestamp,omitempty"` && verif.FieldType[Login]("Timestamp") == "int64", "Timestamp")
+	verif.Assert(verif.FieldTag[Login]("RunID") == `json:"run_id,omitempty"` && verif.FieldType[Login]("RunID") == "string", "RunID")
+	verif.Assert(verif.FieldTag[Login]("Metas") == `json:"metas,omitempty"` && verif.FieldType[Login]("Metas") == "map[string]string", "Metas")
+	verif.Assert(verif.FieldTag[Login]("ClientSpec") == `json:"client_spec,omitempty"` && verif.FieldType[Login]("ClientSpec") == "ClientSpec", "ClientSpec")
+	verif.Assert(verif.FieldTag[Login]("PoolCount") == `json:"pool_count,omitempty"` && verif.FieldType[Login]("PoolCount") == "int", "PoolCount")
+}
+
+//verif:lemma
+//verif:props C17
+func verif_golden_fields_LoginResp() {
+	verif.Assert(verif.FieldTag[LoginResp]("Version") == `json:"version,omitempty"` && verif.FieldType[LoginResp]("Version") == "string", "Version")
+	verif.Assert(verif.FieldTag[LoginResp]("RunID") == `json:"run_id,omitempty"` && verif.FieldType[LoginResp]("RunID") == "string", "RunID")
+	verif.Assert(verif.FieldTag[LoginResp]("Error") == `json:"error,omitempty"` && verif.FieldType[LoginResp]("Error") == "string", "Error")
+}
+
+//verif:lemma
+//verif:props C17
+func verif_golden_fields_NewProxy() {
+	verif.Assert(verif.FieldTag[NewProxy]("ProxyName") == `json:"proxy_name,omitempty"` && verif.FieldType[NewProxy]("ProxyName") == "string", "ProxyName")
+	verif.Assert(verif.FieldTag[NewProxy]("ProxyType") == `json:"proxy_type,omitempty"` && verif.FieldType[NewProxy]("ProxyType") == "string", "ProxyType")
+	verif.Assert(verif.FieldTag[NewProxy]("UseEncryption") == `json:"use_encryption,omitempty"` && verif.FieldType[NewProxy]("UseEncryption") == "bool", "UseEncryption")
+	verif.Assert(verif.FieldTag[NewProxy]("UseCompression") == `json:"use_compression,omitempty"` && verif.FieldType[NewProxy]("UseCompression") == "bool", "UseCompression")
+	verif.Assert(verif.FieldTag[NewProxy]("BandwidthLimit") == `json:"bandwidth_limit,omitempty"` && verif.FieldType[NewProxy]("BandwidthLimit") == "string", "BandwidthLimit")
+	verif.Assert(verif.FieldTag[NewProxy]("BandwidthLimitMode") == `json:"bandwidth_limit_mode,omitempty"` && verif.FieldType[NewProxy]("BandwidthLimitMode") == "string", "BandwidthLimitMode")
+	verif.Assert(verif.FieldTag[NewProxy]("Group") == `json:"group,omitempty"` && verif.FieldType[NewProxy]("Group") == "string", "Group")
+	verif.Assert(verif.FieldTag[NewProxy]("GroupKey") == `json:"group_key,omitempty"` && verif.FieldType[NewProxy]("GroupKey") == "string", "GroupKey")
+	verif.Assert(verif.FieldTag[NewProxy]("Metas") == `json:"metas,omitempty"` && verif.FieldType[NewProxy]("Metas") == "map[string]string", "Metas")
+	verif.Assert(verif.FieldTag[NewProxy]("Annotations") == `json:"annotations,omitempty"` && verif.FieldType[NewProxy]("Annotations") == "map[string]string", "Annotations")
+	verif.Assert(verif.FieldTag[NewProxy]("RemotePort") == `json:"remote_port,omitempty"` && verif.FieldType[NewProxy]("RemotePort") == "int", "RemotePort")
+	verif.Assert(verif.FieldTag[NewProxy]("CustomDomains") == `json:"custom_domains,omitempty"` && verif.FieldType[NewProxy]("CustomDomains") == "[]string", "CustomDomains")
+	verif.Assert(verif.FieldTag[NewProxy]("SubDomain") == `json:"subdomain,omitempty"` && verif.FieldType[NewProxy]("SubDomain") == "string", "SubDomain")
+	verif.Assert(verif.FieldTag[NewProxy]("Locations") == `json:"locations,omitempty"` && verif.FieldType[NewProxy]("Locations") == "[]string", "Locations")
+	verif.Assert(verif.FieldTag[NewProxy]("HTTPUser") == `json:"http_user,omitempty"` && verif.FieldType[NewProxy]("HTTPUser") == "string", "HTTPUser")
+	verif.Assert(verif.FieldTag[NewProxy]("HTTPPwd") == `json:"http_pwd,omitempty"` && verif.FieldType[NewProxy]("HTTPPwd") == "string", "HTTPPwd")
+	verif.Assert(verif.FieldTag[NewProxy]("HostHeaderRewrite") == `json:"host_header_rewrite,omitempty"` && verif.FieldType[NewProxy]("HostHeaderRewrite") == "string", "HostHeaderRewrite")
+	verif.Assert(verif.FieldTag[NewProxy]("Headers") == `json:"headers,omitempty"` && verif.FieldType[NewProxy]("Headers") == "map[string]string", "Headers")
+	verif.Assert(verif.FieldTag[NewProxy]("ResponseHeaders") == `json:"response_headers,omitempty"` && verif.FieldType[NewProxy]("ResponseHeaders") == "map[string]string", "ResponseHeaders")
+	verif.Assert(verif.FieldTag[NewProxy]("RouteByHTTPUser") == `json:"route_by_http_user,omitempty"` && verif.FieldType[NewProxy]("RouteByHTTPUser") == "string", "RouteByHTTPUser")
+	verif.Assert(verif.FieldTag[NewProxy]("Sk") == `json:"sk,omitempty"` && verif.FieldType[NewProxy]("Sk") == "string", "Sk")
+	verif.Assert(verif.FieldTag[NewProxy]("AllowUsers") == `json:"allow_users,omitempty"` && verif.FieldType[NewProxy]("AllowUsers") == "[]string", "AllowUsers")
+	verif.Assert(verif.FieldTag[NewProxy]("Multiplexer") == `json:"multiplexer,omitempty"` && verif.FieldType[NewProxy]("Multiplexer") == "string", "Multiplexer")
+}
+
+//verif:lemma
+//verif:props C17
+func verif_golden_fields_NewProxyResp() {
+	verif.Assert(verif.FieldTag[NewProxyResp]("ProxyName") == `json:"proxy_name,omitempty"` && verif.FieldType[NewProxyResp]("ProxyName") == "string", "ProxyName")
+	verif.Assert(verif.FieldTag[NewProxyResp]("RemoteAddr") == `json:"remote_addr,omitempty"` && verif.FieldType[NewProxyResp]("RemoteAddr") == "string", "RemoteAddr")
+	verif.Assert(verif.FieldTag[NewProxyResp]("Error") == `json:"error,omitempty"` && verif.FieldType[NewProxyResp]("Error") == "string", "Error")
+}
+
+//verif:lemma
+//verif:props C17
+func verif_golden_fields_CloseProxy() {
+	verif.Assert(verif.FieldTag[CloseProxy]("ProxyName") == `json:"proxy_name,omitempty"` && verif.FieldType[CloseProxy]("ProxyName") == "string", "ProxyName")
+}
+
+//verif:lemma
+//verif:props C17
+func verif_golden_fields_NewWorkConn() {
+	verif.Assert(verif.FieldTag[NewWorkConn]("RunID") == `json:"run_id,omitempty"` && verif.FieldType[NewWorkConn]("RunID") == "string", "RunID")
+	verif.Assert(verif.FieldTag[NewWorkConn]("PrivilegeKey") == `json:"privilege_key,omitempty"` && verif.FieldType[NewWorkConn]("PrivilegeKey") == "string", "PrivilegeKey")
+	verif.Assert(verif.FieldTag[NewWorkConn]("Timestamp") == `json:"timestamp,omitempty"` && verif.FieldType[NewWorkConn]("Timestamp") == "int64", "Timestamp")
+}
+
+//verif:lemma
+//verif:props C17
+func verif_golden_fields_StartWorkConn() {
+	verif.Assert(verif.FieldTag[StartWorkConn]("ProxyName") == `json:"proxy_name,omitempty"` && verif.FieldType[StartWorkConn]("ProxyName") == "string", "ProxyName")
+	verif.Assert(verif.FieldTag[StartWorkConn]("SrcAddr") == `json:"src_addr,omitempty"` && verif.FieldType[StartWorkConn]("SrcAddr") == "string", "SrcAddr")
+	verif.Assert(verif.FieldTag[StartWorkConn]("DstAddr") == `json:"dst_addr,omitempty"` && verif.FieldType[StartWorkConn]("DstAddr") == "string", "DstAddr")
+	verif.Assert(verif.FieldTag[StartWorkConn]("SrcPort") == `json:"src_port,omitempty"` && verif.FieldType[StartWorkConn]("SrcPort") == "uint16", "SrcPort")
+	verif.Assert(verif.FieldTag[StartWorkConn]("DstPort") == `json:"dst_port,omitempty"` && verif.FieldType[StartWorkConn]("DstPort") == "uint16", "DstPort")
+	verif.Assert(verif.FieldTag[StartWorkConn]("Error") == `json:"error,omitempty"` && verif.FieldType[StartWorkConn]("Error") == "string", "Error")
+}
+
+//verif:lemma
+//verif:props C17
+func verif_golden_fields_NewVisitorConn() {
+	verif.Assert(verif.FieldTag[NewVisitorConn]("RunID") == `json:"run_id,omitempty"` && verif.FieldType[NewVisitorConn]("RunID") == "string", "RunID")
+	verif.Assert(verif.FieldTag[NewVisitorConn]("ProxyName") == `json:"proxy_name,omitempty"` && verif.FieldType[NewVisitorConn]("ProxyName") == "string", "ProxyName")
+	verif.Assert(verif.FieldTag[NewVisitorConn]("SignKey") == `json:"sign_key,omitempty"` && verif.FieldType[NewVisitorConn]("SignKey") == "string", "SignKey")
+	verif.Assert(verif.FieldTag[NewVisitorConn]("Timestamp") == `json:"timestamp,omitempty"` && verif.FieldType[NewVisitorConn]("Timestamp") == "int64", "Timestamp")
+	verif.Assert(verif.FieldTag[NewVisitorConn]("UseEncryption") == `json:"use_encryption,omitempty"` && verif.FieldType[NewVisitorConn]("UseEncryption") == "bool", "UseEncryption")
+	verif.Assert(verif.FieldTag[NewVisitorConn]("UseCompression") == `json:"use_compression,omitempty"` && verif.FieldType[NewVisitorConn]("UseCompression") == "bool", "UseCompression")
+}
+
+//verif:lemma
+//verif:props C17
+func verif_golden_fields_NewVisitorConnResp() {
+	verif.Assert(verif.FieldTag[NewVisitorConnResp]("ProxyName") == `json:"proxy_name,omitempty"` && verif.FieldType[NewVisitorConnResp]("ProxyName") == "string", "ProxyName")
+	verif.Assert(verif.FieldTag[NewVisitorConnResp]("Error") == `json:"error,omitempty"` && verif.FieldType[NewVisitorConnResp]("Error") == "string", "Error")
+}
+
+//verif:lemma
+//verif:props C17
+func verif_golden_fields_Ping() {
+	verif.Assert(verif.FieldTag[Ping]("PrivilegeKey") == `json:"privilege_key,omitempty"` && verif.FieldType[Ping]("PrivilegeKey") == "string", "PrivilegeKey")
+	verif.Assert(verif.FieldTag[Ping]("Timestamp") == `json:"timestamp,omitempty"` && verif.FieldType[Ping]("Timestamp") == "int64", "Timestamp")
+}
+
+//verif:lemma
+//verif:props C17
+func verif_golden_fields_Pong() {
+	verif.Assert(verif.FieldTag[Pong]("Error") == `json:"error,omitempty"` && verif.FieldType[Pong]("Error") == "string", "Error")
+}
+
+//verif:lemma
+//verif:props C17
+func verif_golden_fields_UDPPacket() {
+	verif.Assert(verif.FieldTag[UDPPacket]("Content") == `json:"c,omitempty"` && verif.FieldType[UDPPacket]("Content") == "string", "Content")
+	verif.Assert(verif.FieldTag[UDPPacket]("LocalAddr") == `json:"l,omitempty"` && verif.FieldType[UDPPacket]("LocalAddr") == "*net.UDPAddr", "LocalAddr")
+	verif.Assert(verif.FieldTag[UDPPacket]("RemoteAddr") == `json:"r,omitempty"` && verif.FieldType[UDPPacket]("RemoteAddr") == "*net.UDPAddr", "RemoteAddr")
+}
+
+//verif:lemma
+//verif:props C17
+func verif_golden_fields_NatHoleVisitor() {
+	verif.Assert(verif.FieldTag[NatHoleVisitor]("TransactionID") == `json:"transaction_id,omitempty"` && verif.FieldType[NatHoleVisitor]("TransactionID") == "string", "TransactionID")
+	verif.Assert(verif.FieldTag[NatHoleVisitor]("ProxyName") == `json:"proxy_name,omitempty"` && verif.FieldType[NatHoleVisitor]("ProxyName") == "string", "ProxyName")
+	verif.Assert(verif.FieldTag[NatHoleVisitor]("PreCheck") == `json:"pre_check,omitempty"` && verif.FieldType[NatHoleVisitor]("PreCheck") == "bool", "PreCheck")
+	verif.Assert(verif.FieldTag[NatHoleVisitor]("Protocol") == `json:"protocol,omitempty"` && verif.FieldType[NatHoleVisitor]("Protocol") == "string", "Protocol")
+	verif.Assert(verif.FieldTag[NatHoleVisitor]("SignKey") == `json:"sign_key,omitempty"` && verif.FieldType[NatHoleVisitor]("SignKey") == "string", "SignKey")
+	verif.Assert(verif.FieldTag[NatHoleVisitor]("Timestamp") == `json:"timestamp,omitempty"` && verif.FieldType[NatHoleVisitor]("Timestamp") == "int64", "Timestamp")
+	verif.Assert(verif.FieldTag[NatHoleVisitor]("MappedAddrs") == `json:"mapped_addrs,omitempty"` && verif.FieldType[NatHoleVisitor]("MappedAddrs") == "[]string", "MappedAddrs")
+	verif.Assert(verif.FieldTag[NatHoleVisitor]("AssistedAddrs") == `json:"assisted_addrs,omitempty"` && verif.FieldType[NatHoleVisitor]("AssistedAddrs") == "[]string", "AssistedAddrs")
+}
+
+//verif:lemma
+//verif:props C17
+func verif_golden_fields_NatHoleClient() {
+	verif.Assert(verif.FieldTag[NatHoleClient]("TransactionID") == `json:"transaction_id,omitempty"` && verif.FieldType[NatHoleClient]("TransactionID") == "string", "TransactionID")
+	verif.Assert(verif.FieldTag[NatHoleClient]("ProxyName") == `json:"proxy_name,omitempty"` && verif.FieldType[NatHoleClient]("ProxyName") == "string", "ProxyName")
+	verif.Assert(verif.FieldTag[NatHoleClient]("Sid") == `json:"sid,omitempty"` && verif.FieldType[NatHoleClient]("Sid") == "string", "Sid")
+	verif.Assert(verif.FieldTag[NatHoleClient]("MappedAddrs") == `json:"mapped_addrs,omitempty"` && verif.FieldType[NatHoleClient]("MappedAddrs") == "[]string", "MappedAddrs")
+	verif.Assert(verif.FieldTag[NatHoleClient]("AssistedAddrs") == `json:"assisted_addrs,omitempty"` && verif.FieldType[NatHoleClient]("AssistedAddrs") == "[]string", "AssistedAddrs")
+}
+
+//verif:lemma
+//verif:props C17
+func verif_golden_fields_NatHoleResp() {
+	verif.Assert(verif.FieldTag[NatHoleResp]("TransactionID") == `json:"transaction_id,omitempty"` && verif.FieldType[NatHoleResp]("TransactionID") == "string", "TransactionID")
+	verif.Assert(verif.FieldTag[NatHoleResp]("Sid") == `json:"sid,omitempty"` && verif.FieldType[NatHoleResp]("Sid") == "string", "Sid")
+	verif.Assert(verif.FieldTag[NatHoleResp]("Protocol") == `json:"protocol,omitempty"` && verif.FieldType[NatHoleResp]("Protocol") == "string", "Protocol")
+	verif.Assert(verif.FieldTag[NatHoleResp]("CandidateAddrs") == `json:"candidate_addrs,omitempty"` && verif.FieldType[NatHoleResp]("CandidateAddrs") == "[]string", "CandidateAddrs")
+	verif.Assert(verif.FieldTag[NatHoleResp]("AssistedAddrs") == `json:"assisted_addrs,omitempty"` && verif.FieldType[NatHoleResp]("AssistedAddrs") == "[]string", "AssistedAddrs")
+	verif.Assert(verif.FieldTag[NatHoleResp]("DetectBehavior") == `json:"detect_behavior,omitempty"` && verif.FieldType[NatHoleResp]("DetectBehavior") == "NatHoleDetectBehavior", "DetectBehavior")
+	verif.Assert(verif.FieldTag[NatHoleResp]("Error") == `json:"error,omitempty"` && verif.FieldType[NatHoleResp]("Error") == "string", "Error")
+}
+
+//verif:lemma
+//verif:props C17
+func verif_golden_fields_NatHoleSid() {
+	verif.Assert(verif.FieldTag[NatHoleSid]("TransactionID") == `json:"transaction_id,omitempty"` && verif.FieldType[NatHoleSid]("TransactionID") == "string", "TransactionID")
+	verif.Assert(verif.FieldTag[NatHoleSid]("Sid") == `json:"sid,omitempty"` && verif.FieldType[NatHoleSid]("Sid") == "string", "Sid")
+	verif.Assert(verif.FieldTag[NatHoleSid]("Response") == `json:"response,omitempty"` && verif.FieldType[NatHoleSid]("Response") == "bool", "Response")
+	verif.Assert(verif.FieldTag[NatHoleSid]("Nonce") == `json:"nonce,omitempty"` && verif.FieldType[NatHoleSid]("Nonce") == "string", "Nonce")
+}
+
+//verif:lemma
+//verif:props C17
+func verif_golden_fields_NatHoleReport() {
+	verif.Assert(verif.FieldTag[NatHoleReport]("Sid") == `json:"sid,omitempty"` && verif.FieldType[NatHoleReport]("Sid") == "string", "Sid")
+	verif.Assert(verif.FieldTag[NatHoleReport]("Success") == `json:"success,omitempty"` && verif.FieldType[NatHoleReport]("Success") == "bool", "Success")
+}
+
+//verif:lemma
+//verif:props C17
+func verif_golden_fields_ClientSpec() {
+	verif.Assert(verif.FieldTag[ClientSpec]("Type") == `json:"type,omitempty"` && verif.FieldType[ClientSpec]("Type") == "string", "Type")
+	verif.Assert(verif.FieldTag[ClientSpec]("AlwaysAuthPass") == `json:"always_auth_pass,omitempty"` && verif.FieldType[ClientSpec]("AlwaysAuthPass") == "bool", "AlwaysAuthPass")
+}
+
+//verif:lemma
+//verif:props C17
+func verif_golden_fields_PortsRange() {
+	verif.Assert(verif.FieldTag[PortsRange]("From") == `json:"from,omitempty"` && verif.FieldType[PortsRange]("From") == "int", "From")
+	verif.Assert(verif.FieldTag[PortsRange]("To") == `json:"to,omitempty"` && verif.FieldType[PortsRange]("To") == "int", "To")
+}
+
+//verif:lemma
+//verif:props C17
+func verif_golden_fields_NatHoleDetectBehavior() {
+	verif.Assert(verif.FieldTag[NatHoleDetectBehavior]("Role") == `json:"role,omitempty"` && verif.FieldType[NatHoleDetectBehavior]("Role") == "string", "Role")
+	verif.Assert(verif.FieldTag[NatHoleDetectBehavior]("Mode") == `json:"mode,omitempty"` && verif.FieldType[NatHoleDetectBehavior]("Mode") == "int", "Mode")
+	verif.Assert(verif.FieldTag[NatHoleDetectBehavior]("TTL") == `json:"ttl,omitempty"` && verif.FieldType[NatHoleDetectBehavior]("TTL") == "int", "TTL")
+	verif.Assert(verif.FieldTag[NatHoleDetectBehavior]("SendDelayMs") == `json:"send_delay_ms,omitempty"` && verif.FieldType[NatHoleDetectBehavior]("SendDelayMs") == "int", "SendDelayMs")
+	verif.Assert(verif.FieldTag[NatHoleDetectBehavior]("ReadTimeoutMs") == `json:"read_timeout,omitempty"` && verif.FieldType[NatHoleDetectBehavior]("ReadTimeoutMs") == "int", "ReadTimeoutMs")
+	verif.Assert(verif.FieldTag[NatHoleDetectBehavior]("CandidatePorts") == `json:"candidate_ports,omitempty"` && verif.FieldType[NatHoleDetectBehavior]("CandidatePorts") == "[]PortsRange", "CandidatePorts")
+	verif.Assert(verif.FieldTag[NatHoleDetectBehavior]("SendRandomPorts") == `json:"send_random_ports,omitempty"` && verif.FieldType[NatHoleDetectBehavior]("SendRandomPorts") == "int", "SendRandomPorts")
+	verif.Assert(verif.FieldTag[NatHoleDetectBehavior]("ListenRandomPorts") == `json:"listen_random_ports,omitempty"` && verif.FieldType[NatHoleDetectBehavior]("ListenRandomPorts") == "int", "ListenRandomPorts")
+}
